@@ -253,6 +253,12 @@ func (Engine) Run(c *simkit.Choices, x *simkit.Ctx) *simkit.Violation {
 	if capacity == 0 {
 		st.Probe("capacity-zero")
 	}
+	if sc.Scribble {
+		st.Fault("chunk-buffer-scribbled-after-write")
+	}
+	if sc.Reset {
+		st.Fault("reset-between-documents")
+	}
 
 	ref, refErrs, refPanic := run(sc, docs, te, cd, -1, x)
 	if refPanic != nil {
